@@ -15,8 +15,6 @@ import (
 	"time"
 
 	"github.com/mdzio/go-mqtt/service"
-	"github.com/mdzio/go-mqtt/sessions"
-	"github.com/mdzio/go-mqtt/topics"
 )
 
 type kaCore struct {
@@ -71,8 +69,7 @@ func kaConnect(svr *service.Server, id int, c wConnect) (*rawClient, bool) {
 func kaScenario(id, K int, interval time.Duration, count int, kind string) string {
 	n := atomic.AddInt64(&providerSeq, 1)
 	name := fmt.Sprintf("verifka%d", n)
-	sessions.Register(name, sessions.NewMemProvider())
-	topics.Register(name, topics.NewMemProvider())
+	registerProviders(name)
 	svr := &service.Server{ConnectTimeout: 1, SessionsProvider: name, TopicsProvider: name, Authenticator: "verifAuth"}
 	willTopic := []byte(fmt.Sprintf("will/%d", id))
 	wit, ok := kaConnect(svr, 1, wConnect{protoName: []byte("MQTT"), version: 4, clean: true, clientID: []byte("witness"), keepAlive: 300})
